@@ -53,6 +53,7 @@ def op_st():
         st.tuples(st.booleans(), st.sampled_from([None, True, False])).map(lambda t: {"op": "export-import", "merge": t[0], "cb": t[1]}),
         st.tuples(st.booleans(), hp, st.sampled_from(PARSABLE)).map(lambda t: {"op": "import-broken", "merge": t[0], "hp": list(t[1]), "cert": t[2]}),
         st.just({"op": "new-client"}),
+        st.just({"op": "years-pass"}),
         st.just({"op": "use-context"}),
         hp.map(lambda t: {"op": "get-tofu-off", "hp": list(t)}),
         st.tuples(hp, st.sampled_from([1, 1, 1, 2, 3, 4]), st.sampled_from(["get", "upload"])).map(lambda t: {"op": "get-dbfault", "hp": list(t[0]), "n": t[1], "kind": t[2]}),
@@ -368,6 +369,21 @@ def run_history(case: dict):
                     model.update(table())  # an implementation that takes what it can: what it took is the new state
             elif o == "new-client":
                 client = GeminiClient(timeout=10, tofu_db_path=dbpath)
+            elif o == "years-pass":
+                # nothing was visited for years (the rows' timestamps are moved back), then the program starts again:
+                # a pin does not lapse
+                import sqlite3
+
+                con = sqlite3.connect(str(dbpath))
+                try:
+                    con.execute("UPDATE known_hosts SET first_seen = '2019-03-01T00:00:00+00:00', last_seen = '2019-03-02T00:00:00+00:00'")
+                    con.commit()
+                except sqlite3.Error:
+                    pass  # another schema: nothing to move back
+                finally:
+                    con.close()
+                client = GeminiClient(timeout=10, tofu_db_path=dbpath)
+                db = TOFUDatabase(dbpath)
             elif o == "use-context":
                 # the long-lived client object goes through an `async with` block and is used again afterwards
                 async with client:
